@@ -33,6 +33,20 @@ CHECKS['C16'] = dict(
     note=NOTE_COMMON + "Partial: the composition 'strict prefix of a whole encoding => error' is proved for primitives only so far; ber/der/per by direct evaluation.",
     technique="Lean 4 proof (primitives) + all-cut-points differential check",
     ref="DESIGN.md §4 C16")
+CHECKS['C11'] = dict(
+    text="Lean theorems check_iff_admits / rejected_path_exact: the model of constraints_checker.py accepts a value IFF every component at any depth "
+         "lies inside every non-extensible range/SIZE/alphabet constraint of its own type (proved for all types and values by mutual structural induction); "
+         "tied to the code by comparing, on boundary-mutated values (lo-1,lo,lo+1,hi-1,hi,hi+1, bad characters) and on reorganised modules "
+         "(value-reference bounds, type references), the implementation's ConstraintsError, the Lean model and an independent interpreter in the harness, on encode and decode.",
+    note=NOTE_COMMON + "Bound resolution through value/type references is on the implementation side only (generator renders one AST both ways). Known finding C11-size-on-reference.",
+    technique="Lean 4 proof (iff, mutual structural induction) + boundary-value differential check",
+    ref="DESIGN.md §4 C11")
+CHECKS['C12'] = dict(
+    text="Lean theorems welltyped_ok (every checker-accepted value, embedded as Python data, passes the type checker) and rejected_path_exact (the reported name path leads to a component "
+         "whose own type is wrong), for all types/values; the implementation is exercised at every sampled component position x corruption kind x 8 codecs and must raise the library error with exactly that path.",
+    note=NOTE_COMMON + "Codec-side errors (missing member, unknown enumeration value) are evaluated directly on the implementation; message tails are not compared.",
+    technique="Lean 4 proof (mutual structural induction) + position x corruption-kind differential check",
+    ref="DESIGN.md §4 C12")
 NOT_APPLICABLE = []
 
 def main():
